@@ -37,6 +37,14 @@ func TestC10(t *testing.T) {
 	rapid.Check(t, func(rt *rapid.T) {
 		cp := vir.GenCond(rt)
 		programs++
+		for _, d := range []string{"shared-first", "shared-middle", "shared-last", "shared-then-new"} {
+			if cp.Diamonds[d] {
+				rec.Class("diamond:" + d)
+			}
+		}
+		if len(cp.Diamonds) == 0 {
+			rec.Class("diamond:none")
+		}
 		calls := chooseCalls(rt, cp)
 		for _, cc := range calls {
 			p := cp.WithCall(cc.call)
